@@ -5,7 +5,7 @@
   capacity `size` with its bounds, the overwrite mode and `alloc` (only used by the
   documented growth policy: grow in CBUF_CHUNK multiples of the allocation, capped at max).
 -/
-import PdshVerif.Gen.Consts
+import PdshVerif.Gen.Cbuf
 
 namespace PdshVerif.Cbuf.Spec
 
